@@ -82,6 +82,7 @@ PROPS = {
     'C09': {'level': 'model_checking', 'mc': [MC_CONC_STRICT], 'families': [fam('conc', 'c09', 48, 800), fam('par', 'c09', 8, 200)], 'trace': COLUMN_TRACE, 'assumptions': []},
     'C10': {'level': 'model_checking', 'assumptions': ['torn reads are searched for statistically under real parallelism (16 cores); the latch probes are deterministic'],
             'mc': [{'module': 'Latch', 'cfg': 'MC_Latch.cfg', 'constants': {'READLATCH': 'TRUE'}, 'quick': {}, 'thorough': {}, 'deadlock': True},
+                   {'module': 'Latch', 'cfg': 'MC_Latch.cfg', 'constants': {'READLATCH': 'TRUE'}, 'quick': {}, 'thorough': {}, 'deadlock': True, 'asbuilt': True},
                    {'module': 'Latch', 'cfg': 'MC_Latch.cfg', 'constants': {'READLATCH': 'FALSE'}, 'quick': {}, 'thorough': {}, 'deadlock': True, 'expect_violation': True}],
             'trace': {'module': 'LatchTrace', 'cfg': 'LatchTrace.cfg'},
             'families': [fam('latch', 'short', 3, 0, shards=1), fam('latch', 'long', 0, 4, shards=1)]},
